@@ -11,7 +11,7 @@ import talgen
 PID = 'C12'
 PROOF_MODULES = ['ChamProofs.Props.C12']
 THEOREMS = ['ChamVerif.keeps_evalT', 'ChamVerif.C12_token_set_when_value_raises', 'ChamVerif.C12_record',
-            'ChamVerif.C12_base_exception_untouched']
+            'ChamVerif.C12_base_exception_untouched', 'ChamVerif.C12_macro_records_then_reraises', 'ChamVerif.C12_records_order']
 LEVEL_TEXT = ('Proved in Lean: the TALES evaluator (python pipes, nested prefixes, string parts — all four mutually recursive functions) never '
               'clears __token (keeps_evalT, induction on the fuel over the mutual block), hence whenever evaluating an expression raises, '
               '__token holds an expression position (C12_token_set_when_value_raises); for an exception in the Exception hierarchy the record '
